@@ -7,6 +7,9 @@
 EXTENDS BPProps, Json
 VARIABLE h
 Log(a, x) == h' = Append(h, <<a, x>>)
+\* an action taken in a rare state is marked "name!tag"; the orchestrator prefers behaviours with rare marks when it
+\* chooses which of the simulated behaviours to replay (the mark is stripped before the script is built)
+Mark(a, cond, tag) == IF cond THEN a \o "!" \o tag ELSE a
 
 Assign2 == { [c \in {"c1","c2"} |-> "x1"], ("c1" :> "x1" @@ "c2" :> "x2") }
 Assign3 == { [c \in {"c1","c2","c3"} |-> "x1"],
@@ -28,9 +31,9 @@ SimNext ==
           \/ AdmitSlow(c) /\ Log("AdmitSlow", c)
           \/ ReturnEmpty(c) /\ Log("ReturnEmpty", c)
           \/ EnqueueSend(c) /\ Log("EnqueueSend", c)
-          \/ EnqueueCtxDone(c) /\ Log("EnqueueCtxDone", c)
+          \/ EnqueueCtxDone(c) /\ Log("EnqueueCtxDone!enqabandon", c)
           \/ RespRecv(c) /\ Log("RespRecv", c)
-          \/ WaitCtxDone(c) /\ Log("WaitCtxDone", c)
+          \/ WaitCtxDone(c) /\ Log(Mark(Mark("WaitCtxDone", rem[c] < n[c], "partial"), resp[c] # <<>>, "unread"), c)
      \/ \E s \in Combos :
           \/ LoopStart(s) /\ Log("LoopStart", s)
           \/ LoopRecv(s) /\ Log("LoopRecv", s)
@@ -42,13 +45,17 @@ SimNext ==
           \/ TimerRearm(s) /\ Log("TimerRearm", s)
           \/ SeeShutdown(s) /\ Log("SeeShutdown", s)
           \/ DrainDone(s) /\ Log("DrainDone", s)
-          \/ Acquire(s) /\ Log("Acquire", s)
+          \/ Acquire(s) /\ Log(Mark("Acquire", K > 0 /\ sem = K - 1, "lastslot"), s)
      \/ \E e \in DOMAIN exp :
           \/ ExportBegin(e) /\ Log("ExportBegin", e)
           \/ ExportEnd(e, FALSE) /\ Log("ExportEndOk", e)
-          \/ ExportEnd(e, TRUE) /\ Log("ExportEndFail", e)
-          \/ RespDeliver(e) /\ Log("RespDeliver", e)
-          \/ RespSkip(e) /\ Log("RespSkip", e)
+          \/ ExportEnd(e, TRUE) /\ Log(Mark("ExportEndFail", Cardinality({exp[e].tb[j].c : j \in DOMAIN exp[e].tb}) > 1, "sharedfail"), e)
+          \/ RespDeliver(e) /\ Log(Mark("RespDeliver", pc[RespTarget(e).c] # "waiting", "latepark"), e)
+          \/ RespSkip(e) /\ Log(Mark(Mark(Mark("RespSkip", Len(resp[RespTarget(e).c]) >= 1, "skipfull"), exp[e].i < Len(exp[e].tb), "skipnotlast"),
+                                      Len(resp[RespTarget(e).c]) >= 1 /\ exp[e].kind = "own" /\ exp[e].i < Len(exp[e].tb), "skipfullownnotlast")
+                                 \o (IF Len(resp[RespTarget(e).c]) >= 1 /\ exp[e].kind = "own"
+                                        /\ \E j \in (exp[e].i + 1)..Len(exp[e].tb) : pc[exp[e].tb[j].c] = "waiting" /\ ~ctxDone[cx[exp[e].tb[j].c]]
+                                     THEN "!livebehind" ELSE ""), e)
           \/ ExportExit(e) /\ Log("ExportExit", e)
      \/ \E x \in Ctxs : RandomElement(1..4) = 1 /\ Cancel(x) /\ Log("Cancel", x)
      \/ (RandomElement(1..6) = 1 \/ \A c \in Callers : pc[c] # "idle") /\ RandomElement(1..3) = 1
